@@ -28,6 +28,7 @@ func inC04Pkg(rel string) bool {
 }
 
 func runC04(c *core.Ctx) {
+	checkOptionalTailAccepted(c, "C04.optional-tail", "native/service/...")
 	c.Floor("zero-copy reads examined for lost end-of-input (contract parameters and records)", checkEofNotLost(c, "C04.eof-not-lost", funcsOfPkgs(c, "native/...", "core/states", "common/config")), 200)
 	n := checkCodecPairs(c, "C04.schema", inC04Scope)
 	c.Floor("codec pairs under native/, core/states, common/config", n, 70)
